@@ -372,3 +372,74 @@ Proof.
     apply nth_In. destruct (entities_unsorted_spec cells facet_idx (t2f_at cells facet_idx s e)) as [L _]; [now apply t2f_bound|].
     rewrite L. now apply t2f_bound.
 Qed.
+
+(* ------------------------------------------------------------------ incidence matrices *)
+Lemma count_in_pos v c : 0 < count_in v c <-> In v c.
+Proof.
+  unfold count_in. induction c as [|x c IH]; simpl; [split; [lia | tauto]|].
+  destruct (Nat.eqb_spec v x) as [->|Hne]; simpl; [split; [now left | lia]|].
+  rewrite IH. split; [now right | intros [H|H]; [congruence | exact H]].
+Qed.
+
+Lemma count_in_nodup v c : NoDup c -> count_in v c = if existsb (Nat.eqb v) c then 1 else 0.
+Proof.
+  unfold count_in. induction 1 as [|x c Hx Hnd IH]; simpl; [reflexivity|].
+  destruct (Nat.eqb_spec v x) as [->|Hne]; simpl; [|exact IH].
+  assert (E : filter (Nat.eqb x) c = []).
+  { clear IH Hnd. induction c as [|y c IHc]; simpl; [reflexivity|]. destruct (Nat.eqb_spec x y) as [->|_].
+    - exfalso. apply Hx. now left.
+    - apply IHc. intros H. apply Hx. now right. }
+  now rewrite E.
+Qed.
+
+Lemma incidence_entry (f : nat -> list nat -> nat) ents nv r v : r < length ents -> v < nv ->
+  nth v (nth r (map (fun c => map (fun v => f v c) (seq 0 nv)) ents) []) 0 = f v (nth r ents []).
+Proof. intros Hr Hv. rewrite (nth_map_d _ ents r [] []) by exact Hr. now rewrite nth_seq_map. Qed.
+
+(* p2f (and p2t / p2e on cells / edges without repeated vertices): shape, entries 0/1, entry = 1 exactly at the members *)
+Theorem incidence_01_spec ents nv :
+  length (incidence_01 ents nv) = length ents /\
+  forall r v, r < length ents -> v < nv ->
+    length (nth r (incidence_01 ents nv) []) = nv /\
+    (nth v (nth r (incidence_01 ents nv) []) 0 = 1 <-> In v (nth r ents [])) /\
+    (nth v (nth r (incidence_01 ents nv) []) 0 = 0 <-> ~ In v (nth r ents [])).
+Proof.
+  unfold incidence_01. split; [now rewrite map_length|]. intros r v Hr Hv.
+  split; [rewrite (nth_map_d _ ents r [] []) by exact Hr; now rewrite map_length, seq_length|].
+  rewrite (incidence_entry (fun v c => if 0 <? count_in v c then 1 else 0)) by assumption.
+  rewrite <- count_in_pos. destruct (Nat.ltb_spec 0 (count_in v (nth r ents []))); split; split; intros; try lia; try reflexivity.
+Qed.
+
+Theorem incidence_count_spec ents nv : Forall (fun c => NoDup c) ents ->
+  incidence_count ents nv = incidence_01 ents nv.
+Proof.
+  intros H. unfold incidence_count, incidence_01. apply map_ext_in. intros c Hc. apply map_ext. intros v.
+  rewrite Forall_forall in H. rewrite (count_in_nodup v c (H c Hc)).
+  destruct (existsb (Nat.eqb v) c); reflexivity.
+Qed.
+
+Theorem e2t_spec cells edges e g : e < length cells -> g < length edges -> NoDup (nth e cells []) ->
+  let x := nth g (nth e (e2t_matrix cells edges) []) 0 in
+  (x = 0 \/ x = 1) /\
+  (x = 1 <-> In (nth 0 (nth g edges []) 0) (nth e cells []) /\ In (nth 1 (nth g edges []) 0) (nth e cells [])).
+Proof.
+  intros He Hg Hn x. unfold x, e2t_matrix. rewrite (nth_map_d _ cells e [] []) by exact He.
+  rewrite (nth_map_d _ edges g [] 0) by exact Hg. rewrite !(count_in_nodup _ _ Hn).
+  pose proof (existsb_eqb_in (nth 0 (nth g edges []) 0) (nth e cells [])) as Ha.
+  pose proof (existsb_eqb_in (nth 1 (nth g edges []) 0) (nth e cells [])) as Hb.
+  destruct (existsb (Nat.eqb (nth 0 (nth g edges []) 0)) (nth e cells []));
+    destruct (existsb (Nat.eqb (nth 1 (nth g edges []) 0)) (nth e cells [])); simpl; intuition (try lia; try discriminate).
+Qed.
+
+(* ------------------------------------------------------------------ the nodes of a mesh are its vertices *)
+Theorem entity_vertices_below_nvertices cells idx f v :
+  In v (nth f (entities true cells idx) []) -> f < length (entities true cells idx) -> v < nvertices cells.
+Proof.
+  intros Hv Hf. assert (Hin : In (nth f (entities true cells idx) []) (entities true cells idx)) by (now apply nth_In).
+  apply in_entities in Hin. destruct Hin as [s [e [Hs [He Hk]]]]. rewrite Hk in Hv. unfold key in Hv.
+  apply (proj1 (sort_entity_in _ _)) in Hv. unfold slotv in Hv. apply in_map_iff in Hv. destruct Hv as [i [Hv _]]. subst v.
+  unfold nvertices. apply Nat.lt_succ_r.
+  destruct (Nat.lt_ge_cases i (length (nth e cells []))) as [Hi|Hi].
+  - apply in_le_list_max. apply in_concat. exists (nth e cells []). split; [now apply nth_In | now apply nth_In].
+  - rewrite nth_overflow by exact Hi. lia.
+Qed.
